@@ -58,6 +58,16 @@ pub fn prompt_sessions<'a>(events: &'a [Event]) -> Vec<PromptSession<'a>> {
     let mut run_start = 0usize;
     for (i, e) in events.iter().enumerate() {
         let boundary = match e {
+            // whoever prints it: a heading that names a line, after input has been read, opens
+            // the next session (a driver may print its headings from the prompt module)
+            Event::Rec { origin: Origin::Prompt, text, .. } if cur.is_some() && cited_line(text).is_some() => {
+                if let Some(mut s) = cur.take() {
+                    s.to = i;
+                    out.push(s);
+                }
+                run_start = i;
+                continue;
+            }
             Event::Rec { origin, .. } => !matches!(origin, Origin::Prompt | Origin::Printer),
             Event::Line { who: Who::Service, .. } => true,
             Event::Exit(_) | Event::Return | Event::Panic { .. } | Event::Fuel => true,
@@ -1366,7 +1376,8 @@ pub fn check_c20(case: &Case, h: &History, alts: &[History]) -> Vec<Violation> {
                             }
                         }
                         PromptCmd::Quit => {
-                            let exited = matches!(h.ended(), Some(Event::Exit(_)));
+                            // (leaving through `process::exit` or by returning from the run loop)
+                            let exited = matches!(h.ended(), Some(Event::Exit(_)) | Some(Event::Return));
                             if !last || !exited || s.followed {
                                 v.push(Violation::new(
                                     "C20:quit_not_exit",
@@ -1424,7 +1435,7 @@ pub fn check_c20(case: &Case, h: &History, alts: &[History]) -> Vec<Violation> {
                             // what advances (n, next): a line that is plainly none of these - empty,
                             // blank, a word, a number, an instruction - does neither
                             if last && t.ends_with('\n') && h.panic().is_none() && !h.out_of_fuel() {
-                                if !s.followed && matches!(h.ended(), Some(Event::Exit(_))) {
+                                if !s.followed && matches!(h.ended(), Some(Event::Exit(_)) | Some(Event::Return)) {
                                     v.push(Violation::new(
                                         "C20:garbage_terminated",
                                         format!("{:?} at the prompt of instruction #{} ended the emulator; only q, quit and the end of input do", t, s.idx),
